@@ -21,7 +21,8 @@ def main():
             mod = importlib.import_module("svlib." + prop.lower())
             mod.run(res)
         except Exception as e:
-            traceback.print_exc()
+            print("check raised: " + repr(e)[:600], file=sys.stderr)
+            print("".join(traceback.format_exc().splitlines(True)[-6:]), file=sys.stderr)
             res.coverage.setdefault("obligations", 1); res.coverage.setdefault("discharged", 0)
             res.coverage.setdefault("checker_cmd", "sv check " + prop); res.coverage.setdefault("trusted_base", core.TRUSTED_BASE)
             res.violation(dict(kind="obligation", obligation=dict(machinery="check raised " + repr(e)[:2000])), no_input=True)
